@@ -142,6 +142,7 @@ class Extractor:
                 self.fail(fi.short, n, "nested function")
         self.slots = {}
         self.t_dirty = False
+        self.in_restoring_try = 0
         return self.block(fn.body)
 
     def slot(self, name):
@@ -186,6 +187,20 @@ class Extractor:
                 if a or b:
                     self.fail(self.cur.short, st, "conditional with cache / flag / temperature effects in a branch")
                 out += te
+                continue
+            if isinstance(st, ast.Try):
+                # try: <body> finally: receiver.T = <saved>   — the only accepted form.  Normal path = body then finalbody;
+                # the finalbody must be exactly one restoring assignment, so that T is restored on every exit, also when a
+                # call in the body raises (Python's finally semantics, trusted).
+                if st.handlers or st.orelse or not st.finalbody:
+                    self.fail(self.cur.short, st, "try statement that is not try/finally")
+                self.in_restoring_try += 1
+                body = self.block(st.body)
+                self.in_restoring_try -= 1
+                fin = self.block(st.finalbody)
+                if len(fin) != 1 or fin[0][0] != "SetTRestore":
+                    self.fail(self.cur.short, st, "finally block that is not a single restoring temperature assignment")
+                out += body + fin
                 continue
             if isinstance(st, (ast.For, ast.While)):
                 head = self.expr(st.iter if isinstance(st, ast.For) else st.test)
@@ -284,6 +299,9 @@ class Extractor:
             r = value.right
             if isinstance(r, ast.BinOp) and isinstance(r.op, (ast.Add, ast.Sub)) and isinstance(r.left, ast.Constant) and r.left.value == 1 \
                     and isinstance(r.right, ast.Name) and r.right.id in self.params:
+                if not self.in_restoring_try:
+                    # exception safety (C03: no calculate_* call changes the visible T, also when a perturbed evaluation raises)
+                    self.fail(f.short, node, "temperature perturbed outside a try/finally that restores it")
                 return ("SetTPert", self.slots[value.left.id], isinstance(r.op, ast.Add))
         self.fail(f.short, node, f"temperature assigned {ast.unparse(value)} (only <saved> * (1 +/- <parameter>) or <saved>)")
 
